@@ -67,6 +67,9 @@ func genTree(r *rand.Rand, depth int, cnt *int, parent *drive.Cmd, name string, 
 	}
 	t.Before, t.Action, t.After = drive.Beh{Kind: drive.BehReturn}, drive.Beh{Kind: drive.BehReturn}, drive.Beh{Kind: drive.BehReturn}
 	t.LongDesc = "LONG-" + t.Path()
+	if parent != nil && r.Intn(6) == 0 {
+		t.Hidden = true // hidden from the help only: addressed like any other command, any number of times
+	}
 	if depth > 0 {
 		nk := r.Intn(4)
 		if deep {
